@@ -589,6 +589,8 @@ def linear_form(n, basis, memo_sup=None):
 
 # ---------------------------------------------------------------- normal form over square-root generators
 SQRT_GEN = {}
+_GEN_BY_KEY = {}
+_GEN_RF_MEMO = {}
 
 
 def sqrt_normal(n):
@@ -627,6 +629,18 @@ def sqrt_normal(n):
                                 memo[x] = {(): lift(Fraction(rn, rd))} if rn else {}
                                 continue
                             g = Node('sqrt', lift(val))
+                except NotImplementedError:
+                    pass
+            if g is x:
+                # radicands that are equal as rational functions are the same generator (e.g. H_i^2 + H_j^2 vs H_j^2 + H_i^2)
+                try:
+                    parts = []
+                    for mono, cf in memo[a[0]].items():      # normal form of the radicand (already computed: topological order)
+                        num, D = to_ratfun(cf, _GEN_RF_MEMO)
+                        if num:
+                            parts.append((mono, tuple(sorted(num.items())), tuple(sorted(D.items()))))
+                    key = tuple(sorted(parts))
+                    g = _GEN_BY_KEY.setdefault(key, x)
                 except NotImplementedError:
                     pass
             SQRT_GEN[g.nid] = g
